@@ -288,12 +288,87 @@ PENDING_REASON = ('static check designed (DESIGN.md section 5) but not yet '
 ALL = ['C%02d' % i for i in range(1, 21)]
 
 
+# rules added after the seeded-change rounds (DESIGN.md section 15):
+# id -> (technique addition, level-text addition)
+EXTRA = {
+    'C02': ('capacity provenance of the vote counter; provenance of the '
+            'label list indexed by the ranking',
+            'Also decides: the integer type of the vote counter is sized '
+            'from the iteration count of the loop that increments it; the '
+            'label list the ranking is translated with is the caller\'s or '
+            'the one returned with the aggregated votes.'),
+    'C04': ('shared random stream modelled as an order-sensitive '
+            'accumulator',
+            'Also: a draw from a shared generator inside a loop whose '
+            'visiting order carries an order label yields a labelled '
+            'value; key order of nested dicts is tracked.'),
+    'C05': ('write-cursor discipline, loop-coverage must-pass, exact '
+            'tiling of chunked loops, index-space typing of numpy code',
+            'Also decides: write cursors of the assembly loops are used, '
+            'advanced and recorded in every iteration; chunked loops tile '
+            'their axis (window = step, clamp = bound, step and bound on '
+            'the same axis); in the transposition, slices and gathers are '
+            'applied in the index space they were computed in.'),
+    'C07': ('ordering-key provenance; column-gather detection on symbolic '
+            'terms',
+            'Also decides: no ordering step on the way to the per-parent '
+            'index arrays of the marker cache depends on query positions; '
+            'the array normalised in the chunk loops has not been cut by '
+            'column.'),
+    'C08': ('iteration-order provenance of the in-place patching loop',
+            'Also decides: parents are patched deepest first; the '
+            'unknown-to-reference test is made on the unfiltered marker '
+            'table.'),
+    'C09': ('loop-coverage must-pass, merge initial value, guard form, '
+            'exact tiling',
+            'Also decides: every chunk reaches _process_chunk; merged '
+            'tables start from zeros; files are compared by gene sequence '
+            'before column-wise addition; chunk windows tile the rows.'),
+    'C10': ('loop-coverage must-pass in the tree builder',
+            'Also decides: the builder records every parent-child link of '
+            'every row before validation (no early exit).'),
+    'C13': ('write-cursor discipline, index-space typing, exact tiling',
+            'Also decides: cursor discipline of the join / amalgamation '
+            'loops, index spaces of the transposition, tiling of all '
+            'chunked loops in the anchored modules.'),
+    'C15': ('producer/consumer agreement of CSV column names, '
+            'loop-coverage',
+            'Also decides: the confidence-column rename spells names as '
+            'blob_to_df builds them; every cell gets a CSV row.'),
+    'C16': ('exact tiling of the scanning loops, lookup provenance',
+            'Also decides: min/max, integrality and rounding scans tile '
+            'their matrix exactly; gene identifiers are looked up as '
+            'given and clipped afterwards.'),
+    'C17': ('back-fill provenance (shared with C01)',
+            'Also decides: the dropped level is back-filled through the '
+            'parent table of that level.'),
+    'C18': ('sign analysis of cell-count denominators; merge rules shared '
+            'with C09',
+            'Also decides: no division by a possibly-zero cell count; '
+            'worker buffers are each added once.'),
+    'C19': ('library-level freshness of listed directories and scratch '
+            'file names',
+            'Also decides, per function: a listed directory was created '
+            'under a unique name by the lister (or handed over whole); no '
+            'predictable file name directly under a scratch parameter.'),
+    'C20': ('value identity inside the sanitiser; ancestor walk of the '
+            'exposure test',
+            'Also decides: the replaced text is the word as it occurs, '
+            'the replacement is a bare or package-relative name, and '
+            'is_exposed tests every ancestor.'),
+}
+
+
 def main():
     checks = []
     for pid in ALL:
         if pid not in CLAIMED:
             continue
         tech, text, ref = CLAIMED[pid]
+        if pid in EXTRA:
+            tech = tech + '; ' + EXTRA[pid][0]
+            text = text + ' ' + EXTRA[pid][1]
+            ref = ref + ' and section 15'
         checks.append({
             'property_id': pid,
             'quick_cmd': f'./check {pid} --tier quick',
